@@ -83,8 +83,13 @@ read_name(const args_info *args)
 		if (ferror(args->files_file)) {
 			// Take care of EINTR since we have established
 			// the signal handlers already.
-			if (errno == EINTR)
+			if (errno == EINTR) {
+				// The error indicator is sticky. Without
+				// clearing it every later fgetc() result
+				// would get discarded too.
+				clearerr(args->files_file);
 				continue;
+			}
 
 			message_error(_("%s: Error reading filenames: %s"),
 				tuklib_mask_nonprint(args->files_name),
